@@ -11,6 +11,7 @@ import (
 	"fmt"
 	"io"
 	"os/exec"
+	"reflect"
 	"sort"
 	"strings"
 	"sync"
@@ -23,6 +24,9 @@ type Sched interface {
 	Unlock(m *Mutex)
 	Run(c *Cmd) error
 	Go(f func())
+	// Block is a scheduling point: the calling task gives the hand back and may be resumed only
+	// once ready() holds (used for the channel operations).
+	Block(kind string, ready func() bool)
 	Add(wg *WaitGroup, n int)
 	Done(wg *WaitGroup)
 	Wait(wg *WaitGroup)
@@ -184,6 +188,126 @@ func LookPath(file string) (string, error) {
 	}
 	return "/usr/bin/" + file, nil
 }
+
+// ---------------------------------------------------------------------------- channels
+//
+// Under a scheduler the channel operations of the instrumented files are served by a model of the
+// channel (a queue of the channel's capacity plus the senders waiting on it), so that a task
+// waiting on a channel is visible to the scheduler instead of blocking its goroutine. Every
+// operation is a scheduling point. With no scheduler installed they are the plain operations.
+
+type pendingSend struct {
+	v     any
+	taken bool
+}
+
+type chanModel struct {
+	buf     []any
+	cap     int
+	closed  bool
+	senders []*pendingSend
+}
+
+var chanModels = map[uintptr]*chanModel{}
+
+// ResetChans forgets the channels of the previous run.
+func ResetChans() { chanModels = map[uintptr]*chanModel{} }
+
+func modelOf(ch any) *chanModel {
+	v := reflect.ValueOf(ch)
+	p := v.Pointer()
+	m := chanModels[p]
+	if m == nil {
+		m = &chanModel{cap: v.Cap()}
+		chanModels[p] = m
+	}
+	return m
+}
+
+func always() bool { return true }
+
+func Send[T any](ch chan<- T, v T) {
+	if S == nil {
+		ch <- v
+		return
+	}
+	S.Block("chan send", always)
+	m := modelOf(ch)
+	if m.closed {
+		panic("send on closed channel")
+	}
+	// values are kept behind a *T: a nil interface value must come out as a nil interface value
+	if len(m.buf) < m.cap {
+		m.buf = append(m.buf, &v)
+		return
+	}
+	ps := &pendingSend{v: &v}
+	m.senders = append(m.senders, ps)
+	S.Block("chan send (waiting for a receiver)", func() bool { return ps.taken || m.closed })
+	if !ps.taken {
+		panic("send on closed channel")
+	}
+}
+
+func Recv2[T any](ch <-chan T) (T, bool) {
+	if S == nil {
+		v, ok := <-ch
+		return v, ok
+	}
+	S.Block("chan recv", always)
+	m := modelOf(ch)
+	ready := func() bool { return len(m.buf) > 0 || len(m.senders) > 0 || m.closed }
+	if !ready() {
+		S.Block("chan recv (waiting for a sender)", ready)
+	}
+	if len(m.buf) > 0 {
+		v := m.buf[0]
+		m.buf = m.buf[1:]
+		if len(m.senders) > 0 { // a waiting sender takes the freed slot
+			ps := m.senders[0]
+			m.senders = m.senders[1:]
+			m.buf = append(m.buf, ps.v)
+			ps.taken = true
+		}
+		return *(v.(*T)), true
+	}
+	if len(m.senders) > 0 {
+		ps := m.senders[0]
+		m.senders = m.senders[1:]
+		ps.taken = true
+		return *(ps.v.(*T)), true
+	}
+	var zero T
+	return zero, false
+}
+
+func Recv[T any](ch <-chan T) T {
+	v, _ := Recv2(ch)
+	return v
+}
+
+func Close[T any](ch chan<- T) {
+	if S == nil {
+		close(ch)
+		return
+	}
+	S.Block("chan close", always)
+	m := modelOf(ch)
+	if m.closed {
+		panic("close of closed channel")
+	}
+	m.closed = true
+}
+
+// Len and Cap stand for len(ch) and cap(ch).
+func Len[T any](ch <-chan T) int {
+	if S == nil {
+		return len(ch)
+	}
+	return len(modelOf(ch).buf)
+}
+
+func Cap[T any](ch <-chan T) int { return cap(ch) }
 
 // Go replaces the go statement.
 func Go(f func()) {
